@@ -238,11 +238,102 @@ fn strat_prefix(_: usize) -> BoxedStrategy<Case> {
         };
         (a0, a1)
     });
-    (prop_oneof![3 => from_qs, 2 => raw], limbs(3), limbs(3), 0usize..=192, 0u8..4)
+    (prop_oneof![3 => from_qs, 2 => raw, 3 => borderline_prefix()], limbs(3), limbs(3), 0usize..=192, 0u8..4)
         .prop_map(|((a0, a1), x, y, k, ek)| {
             let (a0, a1) = if a1 > a0 { (a1 | 1 << 63, a0) } else { (a0, a1) };
             let (a0, a1) = if a1 > a0 { (a0, a0) } else { (a0, a1) };
             Case::new().n(a0).n(a1).n(k as u64).n(ek as u64).l(x).l(y)
+        })
+        .boxed()
+}
+
+/// Leading words constructed backwards from a quotient sequence so that the remainders the
+/// single-word Lehmer step stops on sit exactly on (or one or two units beside) the boundary of
+/// one of Jebelean's exactness conditions: with cofactors (u_i, v_i) of the sequence and final
+/// remainders a2 >= 2^32 > a3, a0 = v3*a2 + v2*a3 and a1 = u3*a2 + u2*a3 reproduce the sequence,
+/// and (a2, a3) is solved for a3 = t + d, a2 - a3 = t + d or (last quotient 1) a1' - a2 = t + d
+/// where t is the cofactor sum the condition compares with.
+fn borderline_prefix() -> BoxedStrategy<(u64, u64)> {
+    let q = prop_oneof![6 => 1u128..4, 2 => 1u128..40, 1 => 1u128..2000];
+    (vec(q, 40..90), 26u32..32, 0u8..3, -2i128..=2, any::<bool>(), any::<u64>(), 0u8..4)
+        .prop_map(|(qs, t, cond, delta, flip, r, pos)| {
+            const LIM: i128 = 1 << 32;
+            const LO: i128 = 1 << 63;
+            const HI: i128 = 1 << 64;
+            let fallback = (r | 1 << 63, r >> 1);
+            let (mut u, mut v) = (vec![1u128, 0], vec![0u128, 1]);
+            let mut n = 0;
+            for q in qs {
+                let (nu, nv) = (u[u.len() - 2] + q * u[u.len() - 1], v[v.len() - 2] + q * v[v.len() - 1]);
+                if nu >= 1 << 32 || nv >= 1 << 32 {
+                    break;
+                }
+                u.push(nu);
+                v.push(nv);
+                n += 1;
+                if n >= 3 && nv >= 1 << t {
+                    break;
+                }
+            }
+            if n < 3 {
+                return fallback;
+            }
+            let i = u.len() - 1;
+            let (u1, v1, u2, v2) = (u[i - 2] as i128, v[i - 2] as i128, u[i - 1] as i128, v[i - 1] as i128);
+            let (mut u3, mut v3) = (u[i] as i128, v[i] as i128);
+            // the code compares with u-sums or v-sums depending on the parity of the step count;
+            // `flip` also produces the other choice
+            let use_u = (n % 2 == 0) ^ flip;
+            let pick = |lo: i128, hi: i128| -> Option<i128> {
+                if lo > hi {
+                    return None;
+                }
+                Some(match pos {
+                    0 => lo,
+                    1 => hi,
+                    _ => lo + (r as i128) % (hi - lo + 1),
+                })
+            };
+            let cdiv = |a: i128, b: i128| (a + b - 1).div_euclid(b);
+            let (a2, a3) = match cond {
+                0 | 2 => {
+                    // a3 = t + delta; for cond 2 the last quotient is forced to 1, so a1' - a2 = a3
+                    let t3 = if cond == 2 {
+                        u3 = u1 + u2;
+                        v3 = v1 + v2;
+                        if use_u { u2 + u1 } else { v2 + v1 }
+                    } else if use_u {
+                        u3
+                    } else {
+                        v3
+                    };
+                    let a3 = (t3 + delta).clamp(0, LIM - 1);
+                    let lo = cdiv(LO - v2 * a3, v3).max(LIM).max(a3 + 1);
+                    let hi = (HI - 1 - v2 * a3).div_euclid(v3);
+                    match pick(lo, hi) {
+                        Some(a2) => (a2, a3),
+                        None => return fallback,
+                    }
+                }
+                _ => {
+                    // a2 - a3 = t + delta
+                    let d = (if use_u { u3 + u2 } else { v3 + v2 }) + delta;
+                    if d < 1 {
+                        return fallback;
+                    }
+                    let lo = cdiv(LO - v3 * d, v3 + v2).max(LIM - d).max(0);
+                    let hi = (HI - 1 - v3 * d).div_euclid(v3 + v2).min(LIM - 1);
+                    match pick(lo, hi) {
+                        Some(a3) => (a3 + d, a3),
+                        None => return fallback,
+                    }
+                }
+            };
+            let (a0, a1) = (v3 * a2 + v2 * a3, u3 * a2 + u2 * a3);
+            if a0 < LO || a0 >= HI || a1 > a0 || a1 < 0 {
+                return fallback;
+            }
+            (a0 as u64, a1 as u64)
         })
         .boxed()
 }
@@ -353,7 +444,7 @@ fn body_u64<const B: usize, const L: usize>(c: &Case, rec: &mut Rec) -> R {
 fn main() {
     let spec = PropSpec {
         id: "C12",
-        rule_text: "pairs (a,b) per width from 5 generator classes: independent alphabet values; pairs built bottom-up from a gcd g in {1, 2^k, large odd, alphabet, 3} and a generated quotient sequence (all 1s = Fibonacci-like; mostly 1s with small random quotients; optionally one huge quotient of 40..200 bits), either order; a = b, b+-1, shifted copies (common 2^k factors); pairs agreeing in their leading 32/64/96/128 bits; (a,0), (0,b), (0,0); exhaustive for BITS <= 7 (all pairs). Prefix matrices: leading words taken from generated quotient sequences or raw alphabet words, each checked on the prefix and on a generated extension A = a0*2^k + x, B = a1*2^k + y (k in 0..=192, x,y in {random, 0/max, max/0, equal}). Oracle: num-bigint gcd; lcm = a*b/g iff < 2^BITS; Bezout identity mod 2^BITS by `sign`; matrix validity in exact signed arithmetic (c,d >= 0, c >= d, d < b, gcd preserved), `apply`/`apply_u128`/`compose` against exact application. Non-trivial: a, b >= 2^32, a != b and the Lehmer matrix for the pair is not the identity (gcd rules); non-identity prefix matrix (prefix rules); r1 != 0 (from_u64). Distinct by inputs.",
+        rule_text: "pairs (a,b) per width from 5 generator classes: independent alphabet values; pairs built bottom-up from a gcd g in {1, 2^k, large odd, alphabet, 3} and a generated quotient sequence (all 1s = Fibonacci-like; mostly 1s with small random quotients; optionally one huge quotient of 40..200 bits), either order; a = b, b+-1, shifted copies (common 2^k factors); pairs agreeing in their leading 32/64/96/128 bits; (a,0), (0,b), (0,0); exhaustive for BITS <= 7 (all pairs). Prefix matrices: leading words taken from generated quotient sequences, raw alphabet words, or constructed backwards from a quotient sequence so that the final remainders sit on or within 2 of the boundary of one of Jebelean's exactness conditions (a3 = cofactor, a2-a3 = cofactor sum, a1-a2 = cofactor sum), each checked on the prefix and on a generated extension A = a0*2^k + x, B = a1*2^k + y (k in 0..=192, x,y in {random, 0/max, max/0, equal}). Oracle: num-bigint gcd; lcm = a*b/g iff < 2^BITS; Bezout identity mod 2^BITS by `sign`; matrix validity in exact signed arithmetic (c,d >= 0, c >= d, d < b, gcd preserved), `apply`/`apply_u128`/`compose` against exact application. Non-trivial: a, b >= 2^32, a != b and the Lehmer matrix for the pair is not the identity (gcd rules); non-identity prefix matrix (prefix rules); r1 != 0 (from_u64). Distinct by inputs.",
         assumptions: vec![
             "num-bigint / num-integer gcd and signed arithmetic are correct (oracle)",
             "cofactor magnitudes of gcd_extended are not part of the property (only the identity mod 2^BITS)",
